@@ -2,17 +2,18 @@
 """import the sub-agents' seeded changes from their scratch worktrees into /verif/seeded/<id>/"""
 import glob, json, os, re, shutil, subprocess, sys
 ROOT = os.path.dirname(os.path.dirname(os.path.abspath(__file__)))
-for wt in sorted(glob.glob('/tmp/wt_C*') + glob.glob('/tmp/wu_C*') + glob.glob('/tmp/wv_C*')):
+for wt in sorted(glob.glob('/tmp/wt_C*') + glob.glob('/tmp/wu_C*') + glob.glob('/tmp/wv_C*') + glob.glob('/tmp/wx_C*')):
     prop = os.path.basename(wt)[3:6]
-    wave3 = os.path.basename(wt).startswith('wv_')
+    wave3 = os.path.basename(wt).startswith('wv_') or os.path.basename(wt).startswith('wx_')
+    wave = 4 if os.path.basename(wt).startswith('wx_') else (3 if wave3 else None)
     for d in sorted(glob.glob(os.path.join(wt, '_seeded', '*'))):
         if not os.path.isdir(d):
             continue
         name = os.path.basename(d)
         sid = f"{prop}-{name}"
         out = os.path.join(ROOT, 'seeded', sid)
-        if wave3 and os.path.exists(out) and json.load(open(os.path.join(out, 'meta.json'))).get('wave') != 3:
-            sid += "-w3"  # an earlier wave produced a change of the same name
+        if wave3 and os.path.exists(out) and json.load(open(os.path.join(out, 'meta.json'))).get('wave') != wave:
+            sid += f"-w{wave}"  # an earlier wave produced a change of the same name
             out = os.path.join(ROOT, 'seeded', sid)
         vlog = os.path.join(d, 'verify.log')
         if not os.path.exists(vlog):
@@ -38,7 +39,7 @@ for wt in sorted(glob.glob('/tmp/wt_C*') + glob.glob('/tmp/wu_C*') + glob.glob('
         meta = json.load(open(meta_path)) if os.path.exists(meta_path) else {}
         meta.update({
             "id": sid,
-            "wave": 3 if wave3 else meta.get("wave", 1),
+            "wave": wave if wave else meta.get("wave", 1),
             "property": prop,
             "origin": "fresh sub-agent given only the property text and its own scratch git worktree of /repo (nothing from /verif)",
             "what_it_breaks_and_needs": readme[:3000],
